@@ -56,4 +56,35 @@ if rnd == 2:
     small struct, std::optional instead of a flag plus a value); introduce or remove a named local, an early return, an if-with-initialiser;
     hoist a common statement out of two branches or duplicate it into them; reorder independent member initialisations or independent statements;
     replace a boolean parameter by two functions (or the reverse).''')
+TARGETS3 = {
+    'C01': 'PubSubIqBase::toXmlElementFromChild and QXmppJingleIq::toXmlElementFromChild (the order of the writer calls, the local lambdas that open elements), QXmppDataForm::parse (how field values are read and collected), QXmppStanza::parse together with QXmppExtendedAddress::isValid/parse/toXml, QXmppHash::toXml, QXmppMucItem::parse',
+    'C02': 'BindManager::handleElement, SaslManager::handleElement (its local finish lambda), NonSaslAuthManager::handleElement, StarttlsManager::handleElement, C2sStreamManager::handleElement, QXmppOutgoingClientPrivate::setListener and the places that call it, QXmppMixManager::requestChannelConfiguration/requestChannelInformation/handlePubSubEvent, QXmppRemoteMethod::gotResult',
+    'C03': 'XmppSocket::processData (the handling of m_dataBuffer), the connected/encrypted/readyRead lambdas in XmppSocket::setSocket, QXmppIncomingClient::handleStanza (the part that copies the received element into nodeFull and stamps from/to)',
+    'C05': 'the continuations attached to SaslManager::authenticate in QXmppOutgoingClient::handleStreamFeatures and to Sasl2Manager::authenticate in QXmppOutgoingClient::startSasl2Auth, QXmppOutgoingClient::setError, QXmppOutgoingClient::startNonSaslAuth',
+    'C06': 'QXmppConfiguration::setUser/setDomain/setJid/setPassword and the credential accessors, initSaslAuthentication in QXmppSaslManager.cpp, the <success/> branches of SaslManager::handleElement and Sasl2Manager::handleElement',
+    'C07': 'QXmppOutgoingClient::disconnectFromHost, OutgoingIqManager::handleStanza/finish/cancelAll/onSessionClosed, QXmppOutgoingClient::closeSession',
+    'C08': 'QXmpp::Private::isIqType (QXmppUtils.cpp), QXmpp::Private::checkIsIqRequest (QXmppIqHandling.cpp), QXmppEntityTimeManager::handleStanza, QXmppVersionManager::handleStanza, QXmppEntityTimeIq::isEntityTimeIq / checkIqType',
+    'C10': 'the connected/encrypted lambdas in XmppSocket::setSocket, QXmppOutgoingClient::handleStreamError, QXmppOutgoingClient::_q_socketDisconnected, C2sStreamManager::onEnabled / canResume / onStreamClosed, QXmppOutgoingClient::disconnectFromHost',
+    'C11': 'QXmppConfiguration::jidBare / jid / setJid / setUser / setDomain / user / domain and QXmppConfigurationPrivate',
+    'C12': 'the continuation in QXmppOutgoingClient::startResourceBinding, the roster-push loop in QXmppRosterManager::handleStanza, the roster-result continuation in QXmppRosterManager::_q_connected, QXmppRosterManager::getRosterEntry and the other accessors of the entries map',
+    'C13': 'the constructors of QXmppPromise (QXmppPromise.h), TaskPrivate::TaskPrivate, TaskData and its destructor, TaskPrivate::setResult/resetResult (QXmppTask.cpp)',
+    'C14': 'generateHmac in QXmppUtils.cpp (key preparation and padding), the text attributes (USERNAME, REALM, SOFTWARE, NONCE, ERROR-CODE phrase) in QXmppStunMessage::decode and encode',
+    'C15': 'QXmppUdpTransport::readyRead, QXmppTurnAllocation::readyRead, QXmppIceComponent::checkCandidates / close / connectToHost and the "signal completion" tail of QXmppIceComponent::handleDatagram',
+    'C16': 'XmppSocket::disconnectFromHost (Stream.cpp), QXmppIncomingClient::disconnectFromHost, the refusing edges (failure + disconnect) in QXmppIncomingClient::handleStanza / onDigestReply / onPasswordReply',
+    'C17': 'QXmppJingleMessageInitiationElement::isJingleMessageInitiationElement / toXml / parse, QXmppCallInviteElement::isCallInviteElement / toXml / parse, QXmppBitsOfBinaryData::isBitsOfBinaryData / toXmlElementFromChild, the arms of QXmppMessage::parseExtension that use these predicates',
+    'C18': 'QXmppTrustManager::trustLevel / setTrustLevel, QXmppAtmManager::makeTrustDecisions (the three-argument overload), QXmppAtmManager::authenticate / distrust, the sender-key lookup in QXmppAtmManager::handleMessage',
+    'C19': 'QXmppTransferJob::accept(const QString &filePath), QXmppTransferManager::sendFile(jid, filePath, description) (hashing and the call of the device overload), QXmppTransferManager::sendFile(jid, device, fileInfo)',
+    'C20': 'the multi-value branch of QXmppDataForm::parse, QXmppClient::_q_streamConnected, QXmppClientPrivate::addProperCapability, QXmppClient::setClientPresence',
+}
+if rnd == 3:
+    text = text.replace('    Use a different kind of refactoring for each of the five, and touch the code that matters for the property, not unrelated code.',
+                        '''    Use a different kind of refactoring for each of the five. Put ALL five into the following functions and their direct helpers (they are
+    collaborators the property silently relies on; spread the five over at least three of them):
+        %s
+    Prefer clean-ups that change HOW these functions are written while keeping exactly what they do and in which order their observable effects
+    happen: extract a part into a private helper or a lambda (or inline one); route a call through a small wrapper; replace a direct member access
+    by an accessor or the reverse; introduce a named local for a condition or a value; turn an if/else into a ternary, a switch or early returns
+    (or back); change the container access or iteration style; merge two adjacent conditions or split one; rename; move a declaration closer to
+    its use; replace an API by an exactly equivalent one. Do NOT reorder statements whose order is observable (network sends, socket closes,
+    signal emissions, promise completions, writes that a callee or a slot reads).''' % TARGETS3[pid])
 print(text)
